@@ -1,4 +1,6 @@
 import Driver.Util
+import Driver.GenOrder
+import Driver.GenGuards
 import Driver.Genum
 import Driver.GErrorIs
 import Driver.Log
@@ -49,6 +51,8 @@ def step (st : DState) (line : String) : DState × String :=
   | "lg" :: rest => let r := Drv.Log.handle st.lg rest; ({ st with lg := r.1 }, r.2)
   | "gei" :: rest => let r := Drv.GEI.handle st.gei rest; ({ st with gei := r.1 }, r.2)
   | "gn" :: rest => let r := Drv.Genum.handle st.gn rest; ({ st with gn := r.1 }, r.2)
+  | "gg" :: rest => (st, Drv.GG.handle rest)
+  | "go_" :: rest => (st, Drv.GO.handle rest)
   | "echo" :: rest => (st, joinSp rest)
   | _ => (st, "bad-op")
 
